@@ -45,7 +45,7 @@ LEAN_KEYWORDS = {'open', 'end', 'at', 'from', 'fun', 'let', 'have', 'show', 'in'
 # sorts -> Lean types (inside a family whose header binds I S K)
 LEAN_TYPE = {'img': 'I', 'se': 'S', 'nat': 'Nat', 'int': 'Int', 'bool': 'Bool', 'K': 'K', 'vec': 'List K', 'mode': 'M',
              'arr': 'A', 'natlist': 'List Nat', 'intlist': 'List Int', 'fld': 'X → K', 'bfld': 'X → Bool',
-             'hist': 'H', 'pimg': 'G'}
+             'hist': 'H', 'pimg': 'G', 'str': 'String', 'mat': 'List (List K)'}
 
 # guard helpers whose calls (as expression statements) are dropped: translator/guards.py extracts them
 GUARD_CALLS = {'_verify_is_integer_type', '_verify_is_floatingpoint_type', '_verify_is_bool', '_verify_is_nonnegative',
@@ -82,7 +82,7 @@ class Target:
     def __init__(self, module, name, params, ret, family, lean=None, drop=(), consts=None, only=None):
         self.module, self.name, self.params, self.ret, self.family = module, name, list(params), ret, family
         self.lean = lean or (module[:-3].replace('/', '_') + '_' + name)
-        self.drop = set(drop) | PLUMBING        # parameters that are not value-level arguments
+        self.drop = set(drop)                   # parameters that are not value-level arguments (PLUMBING parameters are added)
         self.consts = dict(consts or {})        # module-level names readable in the body: name -> (lean text, sort)
         self.only = only
 
@@ -120,6 +120,8 @@ class Tr:
     def __init__(self, tgt: Target, fdef: ast.FunctionDef):
         self.t, self.f = tgt, fdef
         self.fam = tgt.family
+        # destination-buffer names are plumbing only when they are PARAMETERS of this function
+        self.drop = set(tgt.drop) | {a.arg for a in fdef.args.args if a.arg in PLUMBING}
         self.counter = 0
         self.raises = any(isinstance(n, ast.Raise) for n in ast.walk(fdef))
 
@@ -182,6 +184,8 @@ class Tr:
                 return str(v), 'natlit'
             if isinstance(v, float):
                 return self.lit_float(v, node)
+            if isinstance(v, str) and re.fullmatch(r'[A-Za-z0-9_]*', v):
+                return f'"{v}"', 'str'
             raise self.err(node, 'literal outside the subset')
         if isinstance(node, ast.Name):
             if node.id in env:
@@ -377,6 +381,17 @@ class Tr:
             a, s = self._E(node.args[0], env)
             if s == 'vec':
                 return f'(List.foldl (fun a b => a + b) 0 {a})', 'K'
+        # builtin max / min of two scalars: Python returns the FIRST argument unless the second is strictly larger / smaller
+        if d in ('max', 'min') and len(node.args) == 2 and not node.keywords and 'K' in self.fam.tparams:
+            a, sa = self._E(node.args[0], env, 'K')
+            b, sb = self._E(node.args[1], env, 'K')
+            a, b = self.coerce(a, sa, 'K', node), self.coerce(b, sb, 'K', node)
+            return (f'(if {a} < {b} then {b} else {a})' if d == 'max' else f'(if {b} < {a} then {b} else {a})'), 'K'
+        # np.array([[..], [..]]) of scalars: the rows, in order
+        if d == 'np.array' and len(node.args) == 1 and not node.keywords and isinstance(node.args[0], ast.List) \
+                and node.args[0].elts and all(isinstance(r, ast.List) for r in node.args[0].elts):
+            rows = ['[' + ', '.join(self.E(e, env, 'K')[0] for e in r.elts) + ']' for r in node.args[0].elts]
+            return '[' + ', '.join(rows) + ']', 'mat'
         if d == 'float' and len(node.args) == 1 and not node.keywords and 'K' in self.fam.tparams:
             a, s = self._E(node.args[0], env)
             if s == 'K':
@@ -406,7 +421,7 @@ class Tr:
         for i, a in enumerate(pos):
             if i < len(slots):
                 slots[i] = a
-            elif (isinstance(a, ast.Name) and a.id in self.t.drop) or (isinstance(a, ast.Constant) and isinstance(a.value, str)):
+            elif (isinstance(a, ast.Name) and a.id in self.drop) or (isinstance(a, ast.Constant) and isinstance(a.value, str)):
                 continue                                # destination buffer / function name for the error text
             else:
                 raise self.err(node, f'extra positional argument {i} of {d}')
@@ -528,11 +543,11 @@ class Tr:
                 return [pad + f'let {lname(tgt.value.id)} := P.{p.field} {a} {i} {v}'] + self.S(rest, env2, k, ind)
             if not isinstance(tgt, ast.Name):
                 raise self.err(s, 'assignment target outside the subset')
-            if tgt.id in PLUMBING or tgt.id in self.t.drop:
+            if tgt.id in self.drop:
                 # destination-buffer plumbing: `out = _get_output(...)`, `if out is None: out = output`
                 if isinstance(val, ast.Call) and (dotted(val.func) or '').split('.')[-1] == '_get_output':
                     return self.S(rest, env, k, ind)
-                if isinstance(val, ast.Name) and val.id in self.t.drop:
+                if isinstance(val, ast.Name) and val.id in self.drop:
                     return self.S(rest, env, k, ind)
                 raise self.err(s, 'assignment to a destination-buffer name that is not `_get_output(...)`')
             txt, sort = self.E(val, env, env.get(tgt.id) if env.get(tgt.id) in ('K', 'vec') else None)
@@ -545,7 +560,7 @@ class Tr:
         if isinstance(s, ast.If):
             # `if out is None: out = output` and other pure plumbing tests
             if self._plumbing_test(s.test):
-                if self.assigned(s.body + s.orelse) and all(n in self.t.drop for n in self.assigned(s.body + s.orelse)) \
+                if self.assigned(s.body + s.orelse) and all(n in self.drop for n in self.assigned(s.body + s.orelse)) \
                         and not self.exits(s.body + s.orelse):
                     return self.S(rest, env, k, ind)
                 raise self.err(s, 'test of a destination-buffer name guarding value-level code')
@@ -556,7 +571,7 @@ class Tr:
                 return [pad + f'if {c} then'] + a + [pad + 'else'] + b
             inb, ine = self.assigned(s.body), self.assigned(s.orelse)
             merged = sorted(n for n in set(inb) | set(ine) if n in env or (n in inb and n in ine))
-            merged = [n for n in merged if n not in self.t.drop]
+            merged = [n for n in merged if n not in self.drop]
             if not merged:
                 raise self.err(s, '`if` without effect on the value-level state')
             sorts = {}
@@ -588,7 +603,7 @@ class Tr:
 
     def _plumbing_test(self, test):
         names = [n.id for n in ast.walk(test) if isinstance(n, ast.Name)]
-        return bool(names) and all(n in self.t.drop for n in names)
+        return bool(names) and all(n in self.drop for n in names)
 
     def _loop_exit(self, env, ind, brk):
         lp = self._loops[-1]
@@ -621,7 +636,7 @@ class Tr:
             if ss != 'vec':
                 raise self.err(s, f'iteration over sort {ss}')
             seq, vsort = sq, 'K'
-        body_assigned = [n for n in self.assigned(s.body) if n not in self.t.drop]
+        body_assigned = [n for n in self.assigned(s.body) if n not in self.drop]
         state = sorted(n for n in body_assigned if n in env and n != s.target.id)
         brk = any(isinstance(n, ast.Break) for n in ast.walk(s))
         if not state:
@@ -658,7 +673,7 @@ class Tr:
         if f.args.vararg or f.args.kwarg or f.args.kwonlyargs:
             raise TranslationError(f'{t.module}:{t.name}: *args/**kwargs/keyword-only parameters')
         want = [p for p, _ in t.params]
-        have = [a for a in argnames if a not in t.drop]
+        have = [a for a in argnames if a not in self.drop]
         if have != want:
             raise TranslationError(f'{t.module}:{t.name}: parameters {have} differ from the reviewed signature {want}')
         env = {p: s for p, s in t.params}
@@ -710,6 +725,14 @@ THRESH = Family(
         '.sum()': Prim('se_sum', ['se'], 'int', doc='number of non-zero entries of a 0/1 structuring element'),
     }, extra_params=EMBED)
 
+LAPL = Family(
+    'laplacian', ['K', 'A'], '[Add K] [Sub K] [Div K] [Neg K] [LT K] [DecidableLT K]', 'LaplPrims',
+    {
+        'np.array': Prim('as_float', ['arr'], 'arr', drop_kw={'dtype'}, doc='`np.array(array, dtype=float)`'),
+        '.ndim': Prim('ndim', ['arr'], 'nat'),
+        'convolve': Prim('convolve', ['arr', 'mat', 'str'], 'arr', kw={'mode': 2}),
+    }, extra_params=EMBED)
+
 HISTO = Family(
     'histogram thresholds', ['H', 'G'], '', 'HistPrims',
     {
@@ -732,8 +755,9 @@ TARGETS = [
     # arrays are seen pointwise (`fld` = position -> value): the numpy operators and np.choose act element by element
     Target('thresholding.py', 'gbernsen', [('f', 'fld'), ('se', 'se'), ('contrast_threshold', 'K'), ('gthresh', 'K')], 'bfld', THRESH),
     Target('thresholding.py', 'otsu', [('img', 'pimg'), ('ignore_zeros', 'bool')], 'nat', HISTO),
+    Target('convolve.py', 'laplacian_2D', [('array', 'arr'), ('alpha', 'K')], 'arr', LAPL),
 ]
-FAMILIES = [MORPH, CONV, THRESH, HISTO]
+FAMILIES = [MORPH, CONV, THRESH, HISTO, LAPL]
 
 
 def _find_function(tree, name):
